@@ -54,17 +54,19 @@ type Workload struct {
 }
 
 type checkWriter struct {
-	console  bool
-	consNew  bool
-	trigger  bool
-	mode     string
-	mu       sync.Mutex
-	got      [][]byte
-	inside   int32
-	maxIn    int32
-	mutated  int32
-	gate     chan struct{}
-	overlapS int32
+	console bool
+	consNew bool
+	trigger bool
+	mode    string
+	mu      sync.Mutex
+	got     [][]byte
+	inside  int32
+	maxIn   int32
+	// fmtIn/fmtOverlap: ConsoleWriter formatter callbacks in progress / ever two at once
+	fmtIn, fmtOverlap int32
+	mutated           int32
+	gate              chan struct{}
+	overlapS          int32
 }
 
 func sum(p []byte) uint64 { h := fnv.New64a(); h.Write(p); return h.Sum64() }
@@ -136,12 +138,23 @@ func loggers(w *checkWriter, syncW bool) []*zerolog.Logger {
 	var dst io.Writer = w
 	if w.console {
 		// ConsoleWriter renders from a pooled buffer and must hand its Out one complete line per event
-		dst = zerolog.ConsoleWriter{Out: w, NoColor: true, TimeLocation: time.UTC}
+		// a formatter of the program's own (rendering what the default renders) sees whether two
+		// ConsoleWriter.Write calls are in progress at once: behind SyncWriter they never are
+		fieldName := func(i interface{}) string {
+			if atomic.AddInt32(&w.fmtIn, 1) > 1 {
+				atomic.StoreInt32(&w.fmtOverlap, 1)
+			}
+			runtime.Gosched()
+			atomic.AddInt32(&w.fmtIn, -1)
+			return fmt.Sprintf("%s=", i)
+		}
+		dst = zerolog.ConsoleWriter{Out: w, NoColor: true, TimeLocation: time.UTC, FormatFieldName: fieldName}
 		if w.consNew {
 			dst = zerolog.NewConsoleWriter(func(c *zerolog.ConsoleWriter) {
 				c.Out, c.NoColor, c.TimeLocation = w, true, time.UTC
 				c.FieldsOrder = []string{"svc", "hooked", "deep", "k1", "a"}
 				c.FieldsExclude = []string{"shard"}
+				c.FormatFieldName = fieldName
 			})
 		}
 	}
@@ -293,6 +306,9 @@ func run(wl *Workload) (msg string, nontrivial bool) {
 	nontrivial = atomic.LoadInt32(&w.maxIn) >= 2 && crossed
 	if atomic.LoadInt32(&w.mutated) != 0 {
 		return "the byte slice handed to Write was modified before Write returned", nontrivial
+	}
+	if wl.Sync && atomic.LoadInt32(&w.fmtOverlap) != 0 {
+		return "SyncWriter let two ConsoleWriter.Write calls run at once (seen from a FormatFieldName callback)", nontrivial
 	}
 	if wl.Sync && atomic.LoadInt32(&w.maxIn) > 1 {
 		return fmt.Sprintf("SyncWriter let %d calls overlap in the wrapped writer", w.maxIn), nontrivial
